@@ -117,6 +117,21 @@ fn corr(r: &mut Rng, thorough: bool, o: &mut Out) {
         let sc = m::sin_cos(g);
         o.case(29, "sin_cos", vec![g], vec![sc.0, sc.1], true, "");
         o.case(30, "log2", vec![p], vec![m::log2(p)], true, "");
+        // the whole exponent range, where a naive formula overflows or underflows but the function does not
+        let k = r.range_i(-1000, 1000) as i32;
+        let sc = 2f64.powi(k);
+        let (a3, a4) = (*r.pick(&[3.0, 5.0, 8.0, 7.0]), 0.0);
+        let _ = a4;
+        let (px, py) = match a3 as i32 { 3 => (3.0, 4.0), 5 => (5.0, 12.0), 8 => (8.0, 15.0), _ => (7.0, 24.0) };
+        o.case(26, "hypot-extreme", vec![px * sc, py * sc], vec![m::hypot(px * sc, py * sc)], k.abs() > 500, if k > 500 { "huge" } else if k < -500 { "tiny" } else { "moderate" });
+        let big = r.generic(-1000, 1000);
+        o.case(25, "cbrt-extreme", vec![big], vec![m::cbrt(big)], true, "");
+        o.case(6, "sqrt-extreme", vec![big.abs()], vec![m::sqrt(big.abs())], true, "");
+        o.case(27, "ln-extreme", vec![big.abs()], vec![m::ln(big.abs())], true, "");
+        let big2 = r.generic(-1000, 1000);
+        if (big.abs().log2() - big2.abs().log2()).abs() < 900.0 {
+            o.case(24, "atan2-extreme", vec![big, big2], vec![m::atan2(big, big2)], true, "");
+        }
     }
 }
 
@@ -157,6 +172,15 @@ fn law_identities(a: &[f64]) -> Option<(String, String)> {
     }
     if !close(h * h, px * px + py * py, 1e-12) {
         return fail("identity:hypot", format!("hypot({:?},{:?})={:?}", px, py, h));
+    }
+    // hypot is scale-equivariant over the whole exponent range (no spurious overflow/underflow)
+    for k in [-1000i32, -600, 600, 900] {
+        let sc = 2f64.powi(k);
+        let hs = m::hypot(px * sc, py * sc);
+        let want = h * sc;
+        if want.is_finite() && want > 1e-290 && !close(hs / sc, h, 1e-12) {
+            return fail("identity:hypot-scale", format!("hypot({:?},{:?})={:?}, want {:?}", px * sc, py * sc, hs, want));
+        }
     }
     let cb = m::cbrt(x);
     if !close(cb * cb * cb, x, 1e-12) {
